@@ -18,8 +18,13 @@ DPool == {Row([a |-> S(<<120>>), b |-> S(<<121>>)]),
           Row([a |-> NumV(1), b |-> S(<<121>>)]),
           Row([a |-> S(<<49>>), b |-> S(<<121>>)]),
           Row([a |-> S(<<120>>), b |-> Null]),
-          Row([a |-> S(<<120>>)])}
-DLists == {<<Star>>, <<Item(Col("a"), "")>>, <<Item(Col("a"), ""), Item(Col("b"), "")>>, <<Item(Col("b"), "k")>>}
+          Row([a |-> S(<<120>>)]),
+          \* values with an identity of their own (a non-empty array, an object): a select list naming the column twice
+          \* yields rows that reach one and the same value by two routes
+          Row([a |-> ArrV(<<NumV(1), S(<<121>>)>>), b |-> S(<<121>>)]),
+          Row([a |-> ObjV([p |-> ArrV(<<NumV(1)>>)]), b |-> S(<<121>>)])}
+DLists == {<<Star>>, <<Item(Col("a"), "")>>, <<Item(Col("a"), ""), Item(Col("b"), "")>>, <<Item(Col("b"), "k")>>,
+           <<Item(Col("a"), ""), Item(Col("a"), "x")>>, <<Star, Item(Col("a"), "x")>>}
 DWins  == {<<-1, -1>>, <<2, -1>>, <<1, 1>>}
 
 UPool == <<Row([a |-> NumV(1)]), Row([a |-> NumV(2)]), Row([a |-> S(<<49>>)])>>
@@ -27,7 +32,8 @@ URows == {UPool[i] : i \in 1..UVals}
 Branch(name, w) == [BaseQ EXCEPT !.sel = <<Item(Col("a"), "")>>, !.from = Table(<<name>>, ""), !.where = w]
 Union(l, r, all, w) == [k |-> "union", l |-> l, r |-> r, all |-> all, limit |-> w[1], offset |-> w[2]]
 NoWin == <<-1, -1>>
-UWins == {NoWin, <<2, -1>>, <<1, 1>>, <<3, 2>>}
+\* (2000000000 / 2000000001: the largest counts the parser accepts, see MC_C05 - "all the rest" after the offset)
+UWins == {NoWin, <<2, -1>>, <<1, 1>>, <<3, 2>>, <<2000000001, 1>>, <<2000000000, 2>>, <<2000000001, -1>>}
 Ge2   == CmpE(">=", Col("a"), LN(2))
 Tbls  == SeqsUpTo(URows, MaxBranch)
 Doc3(t, u, v) == ObjV([x \in {"t", "u", "v"} |-> ArrV(IF x = "t" THEN t ELSE IF x = "u" THEN u ELSE v)])
@@ -48,7 +54,8 @@ Init ==
                   q |-> IF left THEN Union(Union(Branch("t", None), Branch("u", None), a1, wi), Branch("v", None), a2, NoWin)
                                 ELSE Union(Branch("v", None), Union(Branch("t", None), Branch("u", None), a1, wi), a2, NoWin)]
        \* DISTINCT over grouped rows: groups that agree on the selected columns give one row
-       \/ \E tbl \in SeqsUpTo(DPool, MaxRows) : \E sl \in {<<Item(Col("a"), "")>>, <<Item(Col("b"), "")>>, <<Item(Col("a"), ""), Item(Col("b"), "")>>, <<Item(Col("b"), "k"), Item(Agg("count", <<>>), "c")>>} :
+       \* (scalar grouping keys: what GROUP BY makes of an array or an object is claimed by no property)
+       \/ \E tbl \in SeqsUpTo({r \in DPool : \A x \in DOMAIN r.f : ~IsArr(r.f[x]) /\ ~IsObj(r.f[x])}, MaxRows) : \E sl \in {<<Item(Col("a"), "")>>, <<Item(Col("b"), "")>>, <<Item(Col("a"), ""), Item(Col("b"), "")>>, <<Item(Col("b"), "k"), Item(Agg("count", <<>>), "c")>>} :
             cs = [fam |-> "distinct", doc |-> Doc1("t", tbl),
                   q |-> [BaseQ EXCEPT !.sel = sl, !.distinct = TRUE, !.group = <<"a", "b">>]]
     /\ EngineInit
